@@ -11,6 +11,11 @@ pub fn step(ctx: &Ctx, _w: &World, ev: &mut Ev) {
         if !a.ok || !b.ok {
             continue;
         }
+        const LIM: u128 = 1_000_000_000_000_000_000_000_000_000_000_000_000; // 10^36: beyond this the reference arithmetic is not trusted
+        if a.q > LIM || a.b > LIM || b.q > LIM || b.b > LIM || a.size.unsigned_abs() > LIM || b.size.unsigned_abs() > LIM {
+            ev.count("out_of_reference_range_skipped");
+            continue;
+        }
         let changed = a.q != b.q || a.b != b.b || a.size != b.size;
         let kind = ctx.step.op.kind();
         if !ctx.out.ok {
